@@ -65,6 +65,8 @@ pub fn exec(db: &dyn IndexDatabase, range: FileRange) -> Option<Vec<InlayHint>> 
             _ => {}
         }
     }
+    // the symbols are selected by overlap, but their hints sit next to them: keep those inside the range
+    hints.retain(|hint| range.range.contains_inclusive(hint.position));
     Some(hints)
 }
 
